@@ -94,7 +94,13 @@ class FuncTable(dict):
             return None
         mod, _, name = key.partition(":")
         if "." in name:
-            return None
+            # `mod:Class.method` that became a module-level function of the same name
+            k2 = f"{mod}:{name.rpartition('.')[2]}"
+            return dict.__getitem__(self, k2) if dict.__contains__(self, k2) else None
+        # a module-level function that became a (static) method of exactly one class of the same module
+        meths = [v for k, v in dict.items(self) if k.startswith(mod + ":") and k.endswith("." + name) and k.count(".") == mod.count(".") + 1]
+        if len(meths) == 1 and name not in self.prog.modules[mod].imports if mod in self.prog.modules else False:
+            return meths[0]
         seen = set()
         while mod in self.prog.modules and (mod, name) not in seen:
             seen.add((mod, name))
